@@ -26,12 +26,17 @@ type Env struct {
 var Debug = false
 
 // RegimeNames names the hardfork regimes.
-var RegimeNames = []string{"v1-only", "v1+v2-overlap", "v2-only"}
+var RegimeNames = []string{"v1-only", "v1+v2-overlap", "v2-only", "v1-only/hard-target", "v1+v2-overlap/hard-target", "v2-only/hard-target"}
 
 // NewEnv builds the network for a hardfork regime. All keys derive from r.
 func NewEnv(r *rng.R, regime int) *Env {
 	n, genesis := chain.TestnetZen()
 	n.InitialTarget = types.BlockID{0xFF}
+	if regime >= 3 {
+		// difficulty 256: the difficulty then reacts to timestamps, so equally long branches differ
+		// slightly in work and the 20% rule of SufficientlyHeavierThan matters
+		n.InitialTarget = types.BlockID{0x00, 0x20}
+	}
 	n.BlockInterval = time.Second
 	n.MaturityDelay = 2
 	n.HardforkDevAddr.Height = 1
@@ -41,7 +46,7 @@ func NewEnv(r *rng.R, regime int) *Env {
 	n.HardforkOak.FixHeight = 1
 	n.HardforkASIC.Height = 1
 	n.HardforkFoundation.Height = 1
-	switch regime {
+	switch regime % 3 {
 	case 0:
 		n.HardforkV2.AllowHeight, n.HardforkV2.RequireHeight, n.HardforkV2.FinalCutHeight = 1000, 2000, 3000
 	case 1:
@@ -89,6 +94,7 @@ type Builder struct {
 	L        *Ledger
 	reserved map[types.Hash256]bool
 	Kinds    []string // kinds of the transactions currently in the pool
+	Jitter   int      // block timestamps advance by 1..1+Jitter seconds (varies the difficulty between branches)
 	nonce    uint64
 }
 
@@ -602,7 +608,7 @@ func (b *Builder) Mine(r *rng.R) (types.Block, []string) {
 	}
 	blk := types.Block{
 		ParentID:     cs.Index.ID,
-		Timestamp:    cs.PrevTimestamps[0].Add(time.Second),
+		Timestamp:    cs.PrevTimestamps[0].Add(b.delay(r)),
 		MinerPayouts: []types.SiacoinOutput{{Value: cs.BlockReward(), Address: miner}},
 	}
 	if blk.Timestamp.Before(b.Env.Genesis.Timestamp) {
@@ -644,6 +650,19 @@ func (b *Builder) Mine(r *rng.R) (types.Block, []string) {
 	b.reserved = map[types.Hash256]bool{}
 	b.Sync()
 	return blk, kinds
+}
+
+// delay picks the distance of a block's timestamp from its parent's: 1..1+Jitter
+// seconds, or for Jitter >= 100 either one second or Jitter seconds (fast and slow
+// blocks push the difficulty in opposite directions, so branches diverge in work).
+func (b *Builder) delay(r *rng.R) time.Duration {
+	if b.Jitter >= 100 {
+		if r.Bool() {
+			return time.Second
+		}
+		return time.Duration(b.Jitter) * time.Second
+	}
+	return time.Duration(1+r.Intn(b.Jitter+1)) * time.Second
 }
 
 // FindNonce grinds the nonce (instant with the test target).
